@@ -556,6 +556,108 @@ Proof.
     unfold queued in *. cbn [sent chan next_seq]. rewrite E in Hs. rewrite <- app_assoc. exact Hs.
 Qed.
 
+(* payload integrity (ghost log): every entry written to the wire or waiting in the channel, and
+   every entry a writer holds between assignment and enqueue, is an entry of the assignment log,
+   i.e. carries the payload that was handed to Sender.Replicate under that sequence; the log has
+   the sequences 1..next in order *)
+Definition held1 (t : wpc) : list entry := match t with W2 s p => [mkEntry s p] | _ => [] end.
+Definition held (ts : list wpc) : list entry := flat_map held1 ts.
+
+Definition InvP (s : wstate) (ts : list wpc) : Prop :=
+  (forall e, In e (sent s ++ chan s) -> In e (alog s)) /\
+  (forall e, In e (held ts) -> In e (alog s)) /\
+  (forall x, In x (dropped s) -> In x (map e_seq (alog s))) /\
+  map e_seq (alog s) = map Z.of_nat (seq 1 (length (alog s))) /\ next_seq s = Z.of_nat (length (alog s)).
+
+Lemma held_set_nth : forall ts i t t', nth_error ts i = Some t ->
+  exists a b, held ts = a ++ held1 t ++ b /\ held (set_nth i t' ts) = a ++ held1 t' ++ b.
+Proof.
+  induction ts as [|y ts IH]; intros i t t' H; [destruct i; discriminate|].
+  destruct i as [|i]; cbn [nth_error] in H.
+  - inversion H; subst. exists [], (held ts). cbn [set_nth]. unfold held. cbn [flat_map app]. auto.
+  - destruct (IH i t t' H) as [a [b [H1 H2]]]. exists (held1 y ++ a), b. cbn [set_nth].
+    unfold held in *. cbn [flat_map]. rewrite H1, H2, <- !app_assoc. auto.
+Qed.
+
+Lemma enqueue_alog : forall cap s sq p, alog (enqueue cap s sq p) = alog s.
+Proof. intros. unfold enqueue. destruct (_ <? _); reflexivity. Qed.
+
+Lemma enqueue_queue_in : forall cap s sq p e,
+  In e (sent (enqueue cap s sq p) ++ chan (enqueue cap s sq p)) -> In e (sent s ++ chan s) \/ e = mkEntry sq p.
+Proof.
+  intros cap s sq p e H. unfold enqueue in H. destruct (_ <? _); cbn [sent chan] in H; [|auto].
+  rewrite app_assoc in H. apply in_app_or in H. destruct H as [H|[H|[]]]; auto.
+Qed.
+
+Lemma enqueue_dropped_in : forall cap s sq p x,
+  In x (dropped (enqueue cap s sq p)) -> In x (dropped s) \/ x = sq.
+Proof.
+  intros cap s sq p x H. unfold enqueue in H. destruct (_ <? _); cbn [dropped] in H; [auto|].
+  apply in_app_or in H. destruct H as [H|[H|[]]]; auto.
+Qed.
+
+Lemma seq_snoc : forall n, map Z.of_nat (seq 1 (S n)) = map Z.of_nat (seq 1 n) ++ [Z.of_nat (S n)].
+Proof. intro n. rewrite seq_S, map_app. reflexivity. Qed.
+
+Lemma invP_step : forall atomic cap s ts i t s' t',
+  InvP s ts -> nth_error ts i = Some t -> wstep atomic cap s t = Some (s', t') -> InvP s' (set_nth i t' ts).
+Proof.
+  intros atomic cap s ts i t s' t' [Hq [Hh [Hd [Hl Hn]]]] Hnth Hstep.
+  destruct (held_set_nth ts i t t' Hnth) as [a [b [Hp1 Hp2]]].
+  assert (Hrest : forall e, In e (a ++ b) -> In e (alog s)).
+  { intros e He. apply Hh. rewrite Hp1. apply in_app_or in He. apply in_or_app. destruct He; [left; assumption|].
+    right. apply in_or_app. right. assumption. }
+  assert (Hassign : forall p, assign atomic cap s p = (s', t') -> held1 t = [] -> InvP s' (set_nth i t' ts)).
+  { intros p Ha Ht. unfold assign in Ha.
+    assert (Hlog : map e_seq (alog s ++ [mkEntry (next_seq s + 1) p]) = map Z.of_nat (seq 1 (length (alog s ++ [mkEntry (next_seq s + 1) p])))
+                   /\ next_seq s + 1 = Z.of_nat (length (alog s ++ [mkEntry (next_seq s + 1) p]))).
+    { rewrite app_length, Nat.add_comm. cbn [length plus]. rewrite seq_snoc, map_app, Hl. cbn [map e_seq]. split; [|lia].
+      f_equal. f_equal. lia. }
+    destruct atomic; inversion Ha; subst s' t'; clear Ha.
+    - unfold InvP. rewrite enqueue_alog, enqueue_next. cbn [alog next_seq]. rewrite Hp2. cbn [held1 app].
+      split; [|split; [|split; [|exact Hlog]]].
+      + intros e He. apply enqueue_queue_in in He. cbn [sent chan] in He. apply in_or_app. destruct He as [He|He]; [left; auto|right; left; auto].
+      + intros e He. apply in_or_app. left. auto.
+      + intros x Hx. apply enqueue_dropped_in in Hx. cbn [dropped] in Hx. rewrite map_app. apply in_or_app.
+        destruct Hx as [Hx|Hx]; [left; auto|right; left; auto].
+    - unfold InvP. cbn [alog next_seq sent chan dropped]. rewrite Hp2. cbn [held1].
+      split; [|split; [|split; [|exact Hlog]]].
+      + intros e He. apply in_or_app. left. auto.
+      + intros e He. apply in_or_app. apply in_app_or in He. destruct He as [He|He]; [left; apply Hrest; apply in_or_app; auto|].
+        cbn [app] in He. destruct He as [He|He]; [right; left; auto|left; apply Hrest; apply in_or_app; auto].
+      + intros x Hx. rewrite map_app. apply in_or_app. left. auto. }
+  destruct t as [w|ws p|sq p|]; cbn [wstep] in Hstep; try discriminate.
+  - destruct (w_kind w) eqn:Ek; inversion Hstep as [Ha]; clear Hstep.
+    + eapply Hassign; [exact Ha|reflexivity].
+    + subst s' t'. unfold InvP. cbn [alog next_seq sent chan dropped]. rewrite Hp2. cbn [held1 app] in *.
+      repeat split; auto.
+    + subst s' t'. unfold InvP. cbn [alog next_seq sent chan dropped]. rewrite Hp2. cbn [held1 app] in *.
+      repeat split; auto.
+  - inversion Hstep as [Ha]. eapply Hassign; [exact Ha|reflexivity].
+  - inversion Hstep; subst s' t'; clear Hstep. cbn [held1] in Hp1, Hp2.
+    assert (Hin : In (mkEntry sq p) (alog s)).
+    { apply Hh. rewrite Hp1. apply in_or_app. right. left. reflexivity. }
+    unfold InvP. rewrite enqueue_alog, enqueue_next. rewrite Hp2. cbn [app].
+    split; [|split; [|split; [|split; assumption]]].
+    + intros e He. apply enqueue_queue_in in He. destruct He as [He|He]; [auto|subst; exact Hin].
+    + exact Hrest.
+    + intros x Hx. apply enqueue_dropped_in in Hx. destruct Hx as [Hx|Hx]; [auto|]. subst x.
+      change sq with (e_seq (mkEntry sq p)). apply in_map. exact Hin.
+Qed.
+
+Lemma reach_invP : forall atomic excl cap s ts, reach atomic excl cap s ts -> InvP s ts.
+Proof.
+  intros atomic excl cap s ts H. induction H.
+  - unfold InvP. cbn. repeat split; auto; intros ? [].
+  - destruct IHreach as [Hq [Hh R]]. split; [exact Hq|split; [|exact R]].
+    unfold held. rewrite flat_map_app. cbn. rewrite app_nil_r. exact Hh.
+  - eapply invP_step; eassumption.
+  - destruct IHreach as [Hq [Hh [Hd R]]]. unfold dstep in H0. destruct (chan s) as [|e r] eqn:E; [discriminate|].
+    inversion H0; subst s'; clear H0. unfold InvP. cbn [alog sent chan dropped next_seq].
+    split; [|split; [exact Hh|split; [exact Hd|exact R]]].
+    intros e0 He. apply Hq. rewrite <- app_assoc in He. exact He.
+Qed.
+
 (* schedules run by the executable interpreter are reachable configurations *)
 Lemma run_sched_reach : forall atomic excl cap sch s ts s' ts',
   reach atomic excl cap s ts ->
@@ -610,7 +712,7 @@ Proof. intros. cbn [send_all]. destruct (send_one c meta st e). reflexivity. Qed
 (* the refutation witness: two direct writers, assign 1, assign 2, enqueue 2, enqueue 1, both sent *)
 Definition race_progs : list wprog := [mkProg KDirect [1%N]; mkProg KDirect [2%N]].
 Definition race_sched : list sitem := [SW 0; SW 1; SW 1; SW 0; SD; SD].
-Definition race_state : wstate := mkW 0 2 [] [] [mkEntry 2 [2%N]; mkEntry 1 [1%N]].
+Definition race_state : wstate := mkW 0 2 [] [] [mkEntry 2 [2%N]; mkEntry 1 [1%N]] [mkEntry 1 [1%N]; mkEntry 2 [2%N]].
 
 Lemma race_run : run_sched false false 10 w_init (map W0 race_progs) race_sched = Some (race_state, [WDone; WDone]).
 Proof. vm_compute. reflexivity. Qed.
